@@ -3,14 +3,16 @@ import itertools
 import random
 
 from vlib.rtc.lib import *  # noqa
+from vlib.rtc import hist
 
 RULE = ('every function of 3 variables (both signs arise as complements), every subset of variables (incl. empty and '
         'undeclared-in-support), both quantifiers, every variable order, fresh and warmed-up managers, through '
         'quantify/exist/forall/apply(\\A,\\E,forall,exists) on dd.bdd and quantify/exist/forall on dd.autoref; sampled '
-        'at 4-5 variables. Result truth table == OR/AND of cofactors; result independent of quantified variables; '
+        'at 4-5 variables; histories (5 names, 25-64 steps) in which quantifications alternate with undeclare_vars / declare / '
+        'swap / sifting / reorder / collect_garbage and every result is re-checked after each later step; level-shift histories (held functions over 4 names, 3 unused spare variables undeclared / declared between single- and two-variable quantifications, no collection in between). Result truth table == OR/AND of cofactors; result independent of quantified variables; '
         'non-trivial: non-empty subset meeting the support; distinct = (truth table, subset, quantifier, order).')
 EXHAUSTIVE = {'quick': False, 'thorough': True}
-REQUIRED_COUNTERS = ['quantify-checked', 'apply-quantifier-checked']
+REQUIRED_COUNTERS = ['quantify-checked', 'apply-quantifier-checked', 'quantify-in-history', 'quantify-after-level-shift']
 NAMES = ['x', 'y', 'z']
 
 
@@ -28,6 +30,13 @@ def chunks(tier, seed):
         for warm in (0, 1):
             for part in range(2):
                 out.append(('case_all3', [dict(order=list(o), warm=warm, part=part, seed=seed)]))
+    nh = 120 if tier == 'quick' else 1500 * DEEP
+    for k in range(0, nh, 10):
+        out.append(('case_history', [dict(seed=seed * 7907 + k + i, steps=25 + (k + i) % 40, mode='autoref' if (k + i) % 3 == 0 else 'bdd',
+                                          names=hist.ALLNAMES[:5], order=None) for i in range(10)]))
+    ns = 60 if tier == 'quick' else 600 * DEEP
+    for k in range(0, ns, 10):
+        out.append(('case_shift', [dict(seed=seed * 4409 + k + i, steps=40) for i in range(10)]))
     n5 = 300 if tier == 'quick' else 5000 * DEEP
     for k in range(0, n5, 50):
         out.append(('case_sampled', [dict(seed=seed * 31337 + k, count=50, nvars=4 + (k // 50) % 2, dyn=(k // 100) % 2)]))
@@ -105,6 +114,47 @@ def case_all3(c, res):
             d.reset()
     wf(b, names)
     res.evals += cnt - 1
+    return keys
+
+
+HOPS = ['var', 'build', 'apply', 'quant', 'drop', 'gc', 'swap', 'sift', 'declare', 'undeclare', 'order']
+HW = [2, 3, 3, 8, 3, 2, 2, 1, 2, 3, 1]
+
+
+def case_history(c, res):
+    """quantification inside histories: between the queries variables are undeclared / declared, levels are swapped, garbage is
+    collected and node numbers are re-used; every result is kept and its truth table re-checked after every later step"""
+    def quantified(sim):
+        if sim.log and sim.log[-1][0] == 'quantify':
+            res.count('quantify-in-history')
+    return hist.run_history(c, res, HOPS, HW, extra_check=quantified)
+
+
+def case_shift(c, res):
+    """quantifications of a few held functions over small subsets while unused variables are undeclared / declared, levels swapped and
+    node numbers re-used (lib.shift_history)"""
+    keys = []
+
+    def query(m, b, names, held, rnd):
+        n = len(names)
+        u, t = rnd.choice(held)
+        sub = tuple(rnd.sample(names, rnd.choice([1, 1, 1, 2, 2, 3])))
+        fa = rnd.random() < .5
+        js = [names.index(v) for v in sub]
+        want = tt_forall(t, js, n) if fa else tt_exists(t, js, n)
+        route = rnd.randrange(3)
+        if route == 0:
+            r = b.quantify(u, set(sub), forall=fa)
+        elif route == 1:
+            r = (b.forall if fa else b.exist)(list(sub), u)
+        else:
+            r = (m.forall if fa else m.exist)(set(sub), m._wrap(u)).node
+        got = den(b, r, names)
+        require(got == want, '_quantify#post:QE',
+                lambda: f'after declarations changed: u={u} tt={t} qvars={sub} forall={fa} order={dict(b.vars)}: got {got} want {want}')
+        res.count('quantify-after-level-shift')
+        keys.append((t, sub, fa, tuple(sorted(b.vars, key=b.vars.get))))
+    shift_history(c, res, query)
     return keys
 
 
